@@ -403,6 +403,13 @@ class _PL(X.PyLower):
             c, m = self.sym.repo.find_method(self.sym.ci, e.func.attr)
             if m is not None:
                 return self.sym.inline(m, [self.lower(a) for a in e.args])
+        if isinstance(e, ast.Call) and isinstance(e.func, ast.Attribute) and not e.keywords:
+            # method call on a value (a local, a parenthesised expression): keep the receiver as a term
+            root = e.func.value
+            while isinstance(root, ast.Attribute):
+                root = root.value
+            if not isinstance(root, ast.Name) or root.id in self.env:
+                return ("call", "." + e.func.attr, self.lower(e.func.value)) + tuple(self.lower(a) for a in e.args)
         return X.PyLower.lower(self, e)
 
     def _leaf(self, e):
